@@ -204,7 +204,9 @@ CLAIMED["C16"] = {
             "which a reader sees a consistent listing equal to the one before or after the update (append_atomic), well-formedness is preserved, and the ORIGINAL order (index and meta "
             "published through the shared mapping before the data flush) is proved inconsistent. On the real binary (built with the verif_hooks feature) the updater is aborted at each of 10 "
             "named points of append / chgstatus / purge and readers, a second writer and a recovery update are observed. Two defects repaired (publish-before-flush; a debug assertion that made "
-            "recovery appends panic). Partial: pause-type schedules, chgstatus/purge effect models and power loss are not covered.",
+            "recovery appends panic). chgstatus and purge have effect models too: every entry carries its old or its new status at every boundary (chg_prefix_old_or_new), a one-entry change is atomic "
+            "(chg_single_atomic), a change of several identifiers is NOT (chg_multi_not_atomic, reproduced on the binary by killing `chgstatus deprecated 2,3` between its two stores: recorded as an open finding), "
+            "purge switches from the old to the new content exactly at the rename (purge_atomic). Partial: pause-type schedules and power loss are not covered.",
     "design_ref": "DESIGN.md §4 C16, §10",
     "note": TB + "; visibility rules of MAP_SHARED stores vs buffered writes are assumptions of the model",
     "technique": "Lean 4 proof on an effect-order model + fault-point enumeration on the real binary (hook feature)",
